@@ -66,6 +66,9 @@ def make_plan(seed: int, tier: str, opts: dict) -> dict:
     if do_compiled:
         cc = dict(mode=r.choice(compiled.MODES), prune=r.random() < 0.5, api=r.choice(["rollout_carry", "run_jit", "gym_jit"]),
                   record={f: r.random() < 0.6 for f in FIELDS}, starting_step=r.choice([0, 0, "mid"]), episode=r.randrange(3))
+        if r.random() < 0.4:
+            # per-node dictionaries (Graph.init_record documents Dict[str, bool] as an alternative to one flag): settings that differ between nodes
+            cc["record"] = {f: {nd["name"]: r.random() < 0.5 for nd in spec["nodes"]} for f in FIELDS}
     for ep in eps:
         ep["until_active"] = True
     return dict(spec=spec, seed=seed, episodes=eps, clock="wall" if wall else "sim", line_rate=0.0, compile=cc)
@@ -280,9 +283,14 @@ def run_plan(plan: dict, replay=None) -> dict:
             steps = crec.nodes[nme].steps
             seqs = onp.asarray(steps.seq)
             input_names = sorted(nodes[nme].inputs.keys())
+            want = {f: (v.get(nme, False) if isinstance(v, dict) else v) for f, v in cc["record"].items()}  # this node's settings
+            if nme not in out1.buffer:
+                want["output"] = False  # (a node that was pruned away completely has no output to record, see compiled.init_state)
             for f in ("rng", "inputs", "state", "output"):
-                if (getattr(steps, f) is not None) != bool(cc["record"][f]):
+                if (getattr(steps, f) is not None) != bool(want[f]):
                     viol.append(dict(clause="c13-record-contains-exactly-the-requested-fields", signature="c13-fields", runtime="compiled", node=nme, field=f, compile=cc))
+            if (crec.nodes[nme].params is not None) != bool(want["params"]):
+                viol.append(dict(clause="c13-record-contains-exactly-the-requested-fields", signature="c13-fields", runtime="compiled", node=nme, field="params", compile=cc))
             for k in range(len(seqs)):
                 ev = ev_idx.get((names.index(nme), e_run, k))
                 if ev is None:
